@@ -23,7 +23,7 @@ func corpusTrace() []Step {
 	t = append(t, Run("config", "--global", "user.name", "Global User"), Run("branch", "-r", "trunk"),
 		Write("d/s/z", "z\n"), Write("b.txt", "b\n"), Write("c d", "c\n"), Run("add", "d", "b.txt", "c d"), Run("commit", "-m", "three: entries"),
 		Run("rm", "a", "b.txt", "c d", "d"), Run("commit", "-m", "empty"),
-		Write("a", "a again\n"), Write("d/x", "x again\n"), Write("k", "k\n"), Run("add", "a", "d", "k"), Run("switch", "-c", "topic"), Run("reset", "--soft", "HEAD@{2}"))
+		Write("a", "a again\n"), Write("d/x", "x again\n"), Write("k", "k\n"), Write("m0", "m0\n"), Write("m9", "m9\n"), Run("add", "a", "d", "k", "m0", "m9"), Run("switch", "-c", "topic"), Run("reset", "--soft", "HEAD@{2}"))
 	return t
 }
 
